@@ -64,7 +64,7 @@ func c02r1(c *core.Ctx) {
 				if _, ok := callTo(m, c2, tr.Add); ok && m.ExprString(c2.Args[0]) == ent {
 					return true
 				}
-				if _, ok := callTo(m, c2, tr.SetEntity); ok && m.ExprString(c2.Args[1]) == ent {
+				if _, ok := callTo(m, c2, tr.SetEntity); ok && m.ExprString(roleArg(tr.SetEntity, c2, "entity")) == ent {
 					return true
 				}
 				return false
@@ -173,8 +173,29 @@ func c02r2(c *core.Ctx) {
 			if fieldKeyOf(m, l) != "Entity.gen" || fieldKeyOf(m, r) != "Entity.gen" {
 				return true
 			}
-			ls, rs := m.ExprString(l), m.ExprString(r)
-			if ls == par.Name()+".gen" && strings.Contains(rs, par.Name()+".id") && (strings.Contains(rs, "pointer") || strings.Contains(rs, "entities")) {
+			// left: the handle's own generation; right: the generation of the pool entry selected by the handle's id
+			lsel, isSel := ast.Unparen(l).(*ast.SelectorExpr)
+			if !isSel {
+				return true
+			}
+			if id, isID := ast.Unparen(lsel.X).(*ast.Ident); !isID || m.Info.ObjectOf(id) != par {
+				return true
+			}
+			usesID, usesPool := false, false
+			ast.Inspect(r, func(y ast.Node) bool {
+				if sel, isS := y.(*ast.SelectorExpr); isS {
+					switch fieldKeyOf(m, sel) {
+					case "Entity.id":
+						if id, isID := ast.Unparen(sel.X).(*ast.Ident); isID && m.Info.ObjectOf(id) == par {
+							usesID = true
+						}
+					case "entityPool.pointer", "entityPool.entities":
+						usesPool = true
+					}
+				}
+				return true
+			})
+			if usesID && usesPool {
 				ok = true
 			}
 			return true
